@@ -13,12 +13,12 @@ func init() {
 		id:  "C11",
 		run: runC11,
 		explanation: "Decided (structural, for every query text, argument list and execution history): " +
-			"C11.clone — in the binding function every store to a protobuf message field (also inside the callback handed to Walk) goes through the deep copy made by proto.Clone, never through the parsed query that was passed in; " +
+			"C11.clone — in the binding function every store to a protobuf message field (also inside the callback handed to Walk) goes through the deep copy made by proto.Clone, never through the parsed query that was passed in; a binding function that rebuilds the query copy-on-write instead (new nodes only on the way to a replaced placeholder, the rest shared with the template) is accepted iff its result is a new root with lists of its own under which everything is made in this call or part of the template argument, and no helper of it writes into a list of nodes not made in this call (copy, indexed store, append to a re-slice x[:n] of the template's operand list); " +
 			"C11.template — program-wide census: every store to a field of a generated message struct outside the generated package writes into a message created in that function (parser literals, a fresh ParseQuery result, the clone), and the statement types' stored query is assigned only at construction; hence a prepared statement's template cannot change between executions; " +
 			"C11.bounds — every non-constant index into a slice that came in as a parameter in the parser package is bounded below and above by dominating tests relating it to the slice's length (symbolic comparison of loads of the same field path and linear offsets); " +
-			"C11.bindall — the callback with which the binding function walks the clone never stops the walk (every return is the constant after which Walk continues, read off Walk's own test of the callback's result) and the binding function does not return before the walk unless no values were supplied: a placeholder number may occur several times, all occurrences are bound; " +
+			"C11.bindall — the callback with which the binding function walks the clone never stops the walk (every return is the constant after which Walk continues, read off Walk's own test of the callback's result) and the binding function does not return before the walk unless no values were supplied: a placeholder number may occur several times, all occurrences are bound; for a rebuilding binder: the node binder has a case for every node kind with operands (read off the generated oneof), binds every operand field, returns the node unchanged only where every bound operand is the original one and otherwise a node of the same kind holding the bound operands, and the list binder's loop visits every element and keeps the bound version of each (path enumeration over the loop body with the invariant changed => list == bound prefix); " +
 			"C11.stmtquery — every statement a prepare function of the driver returns carries the result of ParseQuery applied to that call's own query parameter (directly, via a parse helper or a constructor), never a statement or parse taken from a map or field; " +
-			"C11.arity — both statement types compare the number of supplied values with the statement's placeholder count before binding, on every path, and return an error otherwise; C11.numinput — that count is the highest placeholder number: a running maximum (initialised to 0, updated only under `placeholder > maximum`) over a Walk whose callback never stops early. " +
+			"C11.arity — both statement types compare the number of supplied values with the statement's placeholder count before binding, on every path, and return an error otherwise (the count may be read from a field of the statement that every store initialises, in the statement's literal, with the count of the query the same literal stores); C11.numinput — that count is the highest placeholder number: a running maximum (initialised to 0, updated only under `placeholder > maximum`) over a Walk whose callback never stops early. " +
 			"NOT decided: that the n-th argument lands exactly in $n for all n (value-level); only the index expression, its bounds and the cloning are structural.",
 		assumptions: []string{"proto.Clone makes a deep copy", "database/sql passes arguments in order", "go/ssa, dominance"},
 	})
@@ -82,11 +82,36 @@ func bindRules(c *Ctx, cloneRule, templateRule string) {
 	nStores := 0
 	for _, fn := range bind.sorted() {
 		if fn != c.a.ReplacePH && fn.Parent() != c.a.ReplacePH {
+			// a helper of the binding function (a copy-on-write binder rebuilds the query in helpers): its stores into
+			// message fields are judged by the census below, like every other function's. What the census does not see
+			// are writes into a bare list of nodes that came in as a parameter (the operand list handed to a list
+			// binder: `append(xs[:i], …)` overwrites the template's operands from i on, copy(xs, …), xs[i] = …).
+			if c.w.pkgPathOf(fn) == pkgProto || !c.w.inModule(fn) {
+				continue
+			}
+			for _, e := range fr.writes(fn) {
+				if owner, _ := protectedField(c.w, e, msgs); owner != nil {
+					nStores++
+					continue
+				}
+				if owner := typeProtectedWrite(e, msgs); owner != nil {
+					key := fmt.Sprintf("%s: %s list of %s", safeFname(fn), e.Kind, owner.Obj().Name())
+					how := ""
+					if e.Kind == "append-reslice" {
+						how = " (an append to a re-slice xs[:i] keeps xs's backing array and overwrites its elements from i on)"
+					}
+					c.r.check(e.Fresh, cloneRule, key, "writes into a list made in this call", "the binder writes into a list of nodes that was not made in this call — the operand list of the caller's parsed query"+how+": the prepared statement's template is modified, so later executions see the previous arguments", c.w.ipos(e.Ins))
+				}
+			}
 			continue
 		}
 		for _, e := range fr.writes(fn) {
 			owner, fld := protectedField(c.w, e, msgs)
 			if owner == nil {
+				if owner := typeProtectedWrite(e, msgs); owner != nil {
+					key := fmt.Sprintf("%s: %s list of %s", safeFname(fn), e.Kind, owner.Obj().Name())
+					c.r.check(e.Fresh, cloneRule, key, "writes into a list made in this call", "the binding function writes into a list of nodes that was not made in this call: the caller's parsed query (the prepared statement's template) is modified, so later executions see the previous arguments", c.w.ipos(e.Ins))
+				}
 				continue
 			}
 			nStores++
@@ -100,8 +125,19 @@ func bindRules(c *Ctx, cloneRule, templateRule string) {
 	// the result returned must be the clone as well
 	allInstrs(c.a.ReplacePH, func(i ssa.Instruction) {
 		if ret, ok := i.(*ssa.Return); ok && len(ret.Results) == 1 {
-			c.r.check(fr.level(retVals(ret)[0]) == deep, cloneRule, safeFname(c.a.ReplacePH)+": result", "returns the deep copy",
-				"the binding function returns a query that is not a deep copy made in this call: bound values leak into the template or into other executions", c.w.ipos(i))
+			rv := retVals(ret)[0]
+			if fr.level(rv) == deep {
+				c.r.ok(cloneRule, safeFname(c.a.ReplacePH)+": result", "returns the deep copy", c.w.ipos(i))
+				return
+			}
+			// not a deep copy: a rebuilt query (new root, own lists, below it only this call's allocations and parts of
+			// the template) is as good, given that nothing shared is ever written (the effect obligations)
+			okCow, why := cowResult(c, fr, rv)
+			if why != "" {
+				why = " (a new root message, but " + why + ")"
+			}
+			c.r.check(okCow, cloneRule, safeFname(c.a.ReplacePH)+": result", "returns a new query built from this call's allocations and unwritten parts of the template",
+				"the binding function returns a query that is not a deep copy made in this call"+why+": bound values leak into the template or into other executions", c.w.ipos(i))
 		}
 	})
 	// ---- template: program-wide census outside the generated package
@@ -273,13 +309,20 @@ func arityRule(c *Ctx, rule string, anchor *ssa.Function) {
 		c.r.undecided(rule, name, "no []string parameter", c.w.pos(fn.Pos()))
 		return
 	}
-	isCount := func(v ssa.Value) bool {
+	isCountCall := func(v ssa.Value) *ssa.Call {
 		call, ok := peelConv(v).(*ssa.Call)
 		if !ok {
-			return false
+			return nil
 		}
-		f := calleeFunc(&call.Call)
-		return f != nil && (f == c.a.NumInput || (f.Name() == "NumInput" && c.w.pkgPathOf(f) == pkgDriver))
+		if f := calleeFunc(&call.Call); f != nil && (f == c.a.NumInput || (f.Name() == "NumInput" && c.w.pkgPathOf(f) == pkgDriver)) {
+			return call
+		}
+		return nil
+	}
+	// the count may also be read from a field of the statement in which it was put when the statement was constructed
+	// (the template never changes afterwards — C11.template —, so neither does its highest placeholder number)
+	isCount := func(v ssa.Value) bool {
+		return isCountCall(v) != nil || cachedCount(c, v, binds, isCountCall)
 	}
 	cut := func(pred, succ *ssa.BasicBlock) bool {
 		iff, ok := pred.Instrs[len(pred.Instrs)-1].(*ssa.If)
